@@ -3,6 +3,7 @@ package gosym
 import (
 	"fmt"
 	"go/types"
+	"math"
 	"strings"
 
 	"golang.org/x/tools/go/ssa"
@@ -421,6 +422,21 @@ func init() {
 			return m.callSSA(c, en.Func("New"), []Value{m.MkStr("<fmt.Errorf>")}, nil)
 		},
 		"log.Printf": fmtNoop2, "log.Println": fmtNoop2, "log.Print": fmtNoop2,
+
+		// ---------------- math: bit casts of concrete floats (the real ones go through unsafe.Pointer)
+		"math.Float64bits": func(m *Machine, c *frame, fn *ssa.Function, a []Value) Value {
+			return m.S.Const(64, math.Float64bits(float64(a[0].(FloatV))))
+		},
+		"math.Float64frombits": func(m *Machine, c *frame, fn *ssa.Function, a []Value) Value {
+			t := a[0].(*sym.Term)
+			if !t.IsConst() {
+				m.unsupported("math.Float64frombits of a symbolic value")
+			}
+			return FloatV(math.Float64frombits(t.C))
+		},
+		"math.Float32bits": func(m *Machine, c *frame, fn *ssa.Function, a []Value) Value {
+			return m.S.Const(32, uint64(math.Float32bits(float32(a[0].(FloatV)))))
+		},
 
 		// ---------------- math/bits
 		"math/bits.OnesCount32": func(m *Machine, c *frame, fn *ssa.Function, a []Value) Value {
